@@ -3,3 +3,4 @@ import ZbossModel.Props.C14
 #print axioms Zboss.Host.C14_transmit_is_afterB
 #print axioms Zboss.Host.C14_fifo
 #print axioms Zboss.Host.C14_nonblocking_free
+#print axioms Zboss.Host.C14_exclusive_any_schedule
